@@ -11,6 +11,9 @@
 #include "llvm/Support/SourceMgr.h"
 #include "llvm/Support/raw_ostream.h"
 #include "llvm/ADT/SmallString.h"
+#include "llvm/IR/LegacyPassManager.h"
+#include "llvm/Pass.h"
+#include "llvm/Transforms/IPO.h"
 #include <map>
 #include <set>
 #include <string>
@@ -623,6 +626,9 @@ struct FnEmitter {
         // runtime-size: element-wise typed loop when pointee type is known
         Value *d = CB.getArgOperand(0)->stripPointerCasts();
         Type *DT = d->getType()->getPointerElementType();
+        std::string dptr = val(d);
+        // pointer to a C array (e.g. an alloca'd int[8] filled by a loop that LLVM turned into memset): work on its elements
+        while (auto *DAT = dyn_cast<ArrayType>(DT)) { if (id != Intrinsic::memset) break; DT = DAT->getElementType(); dptr = "(&(*" + dptr + ").e[0])"; }
         if (DT->isSized() && !DT->isFunctionTy() && !DT->isIntegerTy(8) && DL->getTypeAllocSize(DT) > 0) {
           std::string es = std::to_string((uint64_t)DL->getTypeAllocSize(DT));
           std::string len = val(CB.getArgOperand(2));
@@ -632,7 +638,7 @@ struct FnEmitter {
             bool intsOnly = true; for (auto &l : lv0) if (!l.T->isIntegerTy()) intsOnly = false;
             if (CV && (CV->isZero() || intsOnly)) {
               std::vector<Leaf> lv; collectLeaves(DT, "_p[_i]", 0, lv);
-              O << ind << "{ " << ctype(DT) << "* _p = " << val(d) << "; u64 _n = (u64)" << len << " / " << es << "; __CPROVER_assert((u64)" << len << " % " << es << " == 0, \"typed memset size\");\n";
+              O << ind << "{ " << ctype(DT) << "* _p = " << dptr << "; u64 _n = (u64)" << len << " / " << es << "; __CPROVER_assert((u64)" << len << " % " << es << " == 0, \"typed memset size\");\n";
               O << ind << "  for (u64 _i = 0; _i < _n; ++_i) {";
               for (auto &l : lv) O << " " << l.lv << " = " << (l.T->isPointerTy() ? "(" + ctype(l.T) + ")0" : l.T->isIntegerTy() ? intLit(APInt::getSplat(l.T->getIntegerBitWidth() < 8 ? 8 : l.T->getIntegerBitWidth(), CV->getValue().trunc(8)).trunc(l.T->getIntegerBitWidth()), l.T) : std::string("0")) << ";";
               O << " } }\n";
@@ -1056,15 +1062,33 @@ struct FnEmitter {
 int main(int argc, char **argv) {
   std::string in;
   std::set<std::string> skip; // functions provided by C runtime (do not emit body)
+  std::vector<std::string> dropCtor; // opt-in: static initialisers (llvm.global_ctors entries whose function name contains the substring) that are NOT run; what only they reach is removed (GlobalDCE)
   for (int i = 1; i < argc; ++i) {
     std::string a = argv[i];
     if (a == "--eh") EH = true; else if (a == "--ub-arith") UBARITH = true; else if (a == "--store-hook") STOREHOOK = true; else if (a == "--byte-loops") BYTELOOPS = true;
+    else if (a.rfind("--drop-ctor=", 0) == 0) dropCtor.push_back(a.substr(12));
     else if (a.rfind("--skip=", 0) == 0) skip.insert(a.substr(7));
     else in = a;
   }
   LLVMContext C; SMDiagnostic E;
   auto M = parseIRFile(in, E, C);
   if (!M) { E.print("ll2c", errs()); return 1; }
+  if (!dropCtor.empty()) {
+    if (GlobalVariable *GC = M->getGlobalVariable("llvm.global_ctors")) if (GC->hasInitializer()) if (auto *CA = dyn_cast<ConstantArray>(GC->getInitializer())) {
+      std::vector<Constant*> keep;
+      for (unsigned i = 0; i < CA->getNumOperands(); ++i) {
+        auto *CS = cast<ConstantStruct>(CA->getOperand(i)); auto *fn = dyn_cast<Function>(CS->getOperand(1)->stripPointerCasts());
+        bool drop = false; if (fn) for (auto &s : dropCtor) if (fn->getName().contains(s)) drop = true;
+        if (drop) errs() << "DROPPED static initialiser " << fn->getName() << "\n"; else keep.push_back(CS);
+      }
+      if (keep.size() != CA->getNumOperands()) {
+        ArrayType *AT = ArrayType::get(CA->getType()->getElementType(), keep.size());
+        if (!keep.empty()) { auto *NGV = new GlobalVariable(*M, AT, false, GlobalValue::AppendingLinkage, ConstantArray::get(AT, keep), ""); NGV->takeName(GC); }
+        GC->eraseFromParent();
+        legacy::PassManager PM; PM.add(createGlobalDCEPass()); PM.run(*M);
+      }
+    }
+  }
   DL = &M->getDataLayout();
   { // typed storage override inference: unique struct T with bitcast __aligned_buffer* -> T* and sizeof(T) == sizeof(buffer)
     std::map<StructType*, std::set<Type*>> cand;
